@@ -83,4 +83,6 @@ class H(Harness):
     def sample_view(self, case, obs):
         if 'model' in case:
             return {'case': case, 'events': (obs.get('events_log') or [])[:8]}
+        if 'model' in case:
+            return {'case': case, 'events': (obs.get('events_log') or [])[:8]}
         return {'table': case['table'], 'dynamics': case['dynamics'], 'first_observations': obs.get('obs', [])[:12]}
